@@ -1128,3 +1128,15 @@ for _o in OBLIGATIONS:
         _lp = _o.setdefault("label_props", {})
         for _l in ("C15.change_answered_with_error_changed_nothing", "C15.add_answered_with_error_created_nothing", "C15.state_keeps_a_value"):
             _lp[_l] = ["C15", "C04"]
+
+# C15 for the creation of a websocket peer: each allocation attempt made while a valid start line is handled fails in turn
+for _k in range(4):
+    O(id="C15.alloc_failure_ws_peer_k%d" % _k, props=["C15", "C13", "C07", "C06"], entry="harness_request_line", defines=["PARSER_MODE=0", "ALLOC_FAIL=%d" % _k],
+      functions=["read_start_line", "alloc_websocket_peer", "init_websocket_peer", "init_peer", "add_routing_table", "websocket_init", "free_websocket_peer_on_error", "free_peer_resources"],
+      symbolic="(the failing allocation attempt, #%d, is fixed per obligation)" % _k, assumes=["the connection object itself exists"],
+      bounds="one valid request line for the websocket target; allocation attempt %d fails; then the connection ends" % _k, **_scn_http)
+
+O(id="C15.socket_peer_init_failure", props=["C15", "C09"], entry="harness_init_failure", reach=["init_failed", "init_ok"], functions=["init_socket_peer"],
+  symbolic="whether init_peer fails (its routing table cannot be allocated)", assumes=[], bounds="none", **_sp)
+_note_add("C15", "reply: the owner's reply to a routed request (the answer for the caller is built under allocation failure). alloc_failure_ws_peer_k*: each allocation made while a valid websocket start line is handled (peer object, routing table) fails in turn: answered 500 or served, nothing left behind, the connection's end is safe. socket_peer_init_failure: a raw peer whose initialisation failed is not put into service.",
+          "the failing attempt is enumerated by the runner (one obligation per attempt), not a solver variable: a symbolic index made every allocation site fork and gave no verdict in 400 s even for a window of 4; only the data is symbolic. Multi-fault runs; teardown paths under failure; failures inside the real cJSON (the model allocates at the same granularity).")
